@@ -163,6 +163,13 @@ def gen_operand(rng: random.Random, ctx: Ctx, kind=None, opid='op'):
             else:
                 v = boundary_value(rng, n) if value is None else value
                 t = '[' + r + (' + ' if v >= 0 else ' - ') + lit(rng, abs(v)) + ']'
+                if rng.random() < 0.35:
+                    # an offset of several terms: everything behind the register is ONE expression, `[sp - 6 + 2]` is sp-4
+                    b = rng.randint(1, 9)
+                    forms = [(' - ', ' + ', b - v), (' - ', ' - ', -v - b), (' + ', ' - ', v + b), (' + ', ' + ', v - b)]
+                    ok = [f for f in forms if f[2] >= 0]
+                    s1, s2, a = rng.choice(ok)
+                    t = '[' + r + s1 + lit(rng, a) + s2 + lit(rng, b) + ']'
             arg = {'src': {'k': 'plain', 'v': v}, 'n': n, 'align': cfg['offset']['byte_align'],
                    'little': arg_little(cfg['offset'], de)}
             return {'text': t, 'code': code, 'arg': arg, 'value': v}
